@@ -144,6 +144,7 @@ def _worker(args):
     import paired  # noqa: F401  (registers C09 / C12 / C15)
     import dealing  # noqa: F401  (registers C10)
     import opener  # noqa: F401  (registers C13)
+    import runout  # noqa: F401  (registers C14)
     mons = [monitors.ALL[m] for m in monitor_names]
     r = run.run_batch(seeds, tag, variant, profile, monitors=mons)
     viols = []
